@@ -44,6 +44,9 @@ type propCfg struct {
 func d(s string) time.Duration { x, _ := time.ParseDuration(s); return x }
 
 var props = map[string]propCfg{
+	"C18": {Level: "exploration",
+		Quick: tierCfg{Checks: 12000, Shards: 1, Timeout: d("5m"), ShrinkTime: d("30s")},
+		Thor:  tierCfg{Checks: 100000, Shards: 12, Timeout: d("30m"), ShrinkTime: d("120s")}},
 	"C19": {Level: "model_checking",
 		Quick: tierCfg{Checks: 2000, Shards: 1, Timeout: d("5m"), ShrinkTime: d("30s"), Steps: 40},
 		Thor:  tierCfg{Checks: 20000, Shards: 12, Timeout: d("30m"), ShrinkTime: d("120s"), Steps: 60}},
@@ -148,7 +151,7 @@ func runShard(bin string, id string, tier string, t tierCfg, seed uint64, idx in
 	cmd := exec.Command(bin, args...)
 	cmd.Dir = filepath.Join(root(), "harness", "checks")
 	env := goEnv("VERIF_OUT="+out, "VERIF_TIER="+tier, "VERIF_WORK="+work,
-		"VERIF_SHARD="+strconv.Itoa(idx), "VERIF_ROOT="+root(),
+		"VERIF_SHARD="+strconv.Itoa(idx), "VERIF_SHARDS="+strconv.Itoa(t.Shards), "VERIF_ROOT="+root(),
 		"VERIF_FINDINGS="+filepath.Join(root(), "known_findings.json"),
 		"VERIF_RAPID_SEED="+strconv.FormatUint(seed, 10),
 		"VERIF_BIN="+bin)
@@ -363,9 +366,7 @@ func run(id string, cfg propCfg, mode string, rest []string) int {
 		if st.States > merged.States {
 			merged.States = st.States
 		}
-		if st.Transitions > merged.Transitions {
-			merged.Transitions = st.Transitions
-		}
+		merged.Transitions += st.Transitions
 		if st.Rule != "" {
 			merged.Rule = st.Rule
 			merged.Assumptions = st.Assumptions
